@@ -1,5 +1,539 @@
-(* HllProofs.v — lemmas about the HLL model (work in progress). *)
-From Coq Require Import ZArith NArith List Bool Lia.
+(* HllProofs.v — basics, the L0 specification, Hll8 and Hll6 register arrays.
+   Main results: [fold_reg_max_spec] (folding coupons with max = per-slot max),
+   [hll8_run_spec], [hll6_run_spec], and the shared estimator-input invariant [est_ok]. *)
+From Coq Require Import ZArith NArith List Bool Lia Permutation.
 From DS Require Import Word Murmur3 RunnerLib HllDefs.
 Import ListNotations.
 Local Open Scope N_scope.
+
+(* ---------- arrays ---------- *)
+Lemma setN_length l i v : length (setN l i v) = length l.
+Proof. apply upd_nth_length. Qed.
+
+Lemma lenN_setN l i v : lenN (setN l i v) = lenN l.
+Proof. unfold lenN. now rewrite setN_length. Qed.
+
+Lemma getN_setN_same l i v : i < lenN l -> getN (setN l i v) i = v.
+Proof. unfold getN, setN, lenN. intros H. rewrite nth_upd_nth_eq; auto. lia. Qed.
+
+Lemma getN_setN_other l i j v : i <> j -> getN (setN l i v) j = getN l j.
+Proof. unfold getN, setN. intros H. apply nth_upd_nth_neq. lia. Qed.
+
+Lemma getN_setN l i j v : i < lenN l ->
+  getN (setN l i v) j = if i =? j then v else getN l j.
+Proof.
+  intros H. destruct (N.eqb_spec i j) as [->|Hne].
+  - now apply getN_setN_same.
+  - now apply getN_setN_other.
+Qed.
+
+Lemma getN_overflow l i : lenN l <= i -> getN l i = 0.
+Proof. unfold getN, lenN. intros. apply nth_overflow. lia. Qed.
+
+Lemma setN_overflow l i v : lenN l <= i -> setN l i v = l.
+Proof.
+  unfold setN, lenN. intros H. assert (Hn : (length l <= N.to_nat i)%nat) by lia. clear H.
+  revert Hn. generalize (N.to_nat i). induction l as [|x t IH]; intros [|n] Hn; simpl in *; auto; try lia.
+  f_equal. apply IH. lia.
+Qed.
+
+Lemma zerosN_length n : lenN (zerosN n) = n.
+Proof. unfold lenN, zerosN. rewrite repeat_length. lia. Qed.
+
+Lemma getN_zerosN n i : getN (zerosN n) i = 0.
+Proof.
+  unfold getN, zerosN. generalize (N.to_nat i) (N.to_nat n). intros a b. revert a.
+  induction b; intros [|a]; simpl; auto.
+Qed.
+
+Lemma seqN_length n : lenN (seqN n) = n.
+Proof. unfold lenN, seqN. rewrite map_length, seq_length. lia. Qed.
+
+Lemma in_seqN n i : In i (seqN n) <-> i < n.
+Proof.
+  unfold seqN. rewrite in_map_iff. split.
+  - intros (x & <- & Hx). apply in_seq in Hx. lia.
+  - intros H. exists (N.to_nat i). split; [lia|]. apply in_seq. lia.
+Qed.
+
+Lemma getN_map_seqN (f : N -> N) n i : i < n -> getN (map f (seqN n)) i = f i.
+Proof.
+  intros H. unfold getN, seqN. rewrite map_map.
+  rewrite nth_indep with (d' := f (N.of_nat 0)) by (rewrite map_length, seq_length; lia).
+  rewrite (map_nth (fun x => f (N.of_nat x)) (seq 0 (N.to_nat n)) 0%nat).
+  rewrite seq_nth by lia. simpl. f_equal. lia.
+Qed.
+
+Lemma list_ext_getN (a b : list N) : length a = length b ->
+  (forall i, i < lenN a -> getN a i = getN b i) -> a = b.
+Proof.
+  revert b. induction a as [|x t IH]; intros [|y u] Hl H; simpl in *; try discriminate; auto.
+  f_equal.
+  - specialize (H 0). unfold getN, lenN in H. simpl in H. apply H. lia.
+  - apply IH; [lia|]. intros i Hi. specialize (H (i + 1)). unfold getN, lenN in *.
+    replace (N.to_nat (i + 1)) with (S (N.to_nat i)) in H by lia. cbn [nth] in H. apply H.
+    change (length (x :: t)) with (S (length t)). lia.
+Qed.
+
+Lemma map_getN_seqN l : map (getN l) (seqN (lenN l)) = l.
+Proof.
+  apply list_ext_getN.
+  - rewrite map_length. pose proof (seqN_length (lenN l)) as H. unfold lenN in *. lia.
+  - intros i Hi. assert (Hi' : i < lenN l).
+    { pose proof (seqN_length (lenN l)) as H. unfold lenN in *. rewrite map_length in Hi. lia. }
+    now apply getN_map_seqN.
+Qed.
+
+(* ---------- coupons ---------- *)
+Definition cvalid (c : N) : Prop := c < 4294967296.
+
+Lemma c_slot_lt lgk c : c_slot lgk c < 2 ^ lgk.
+Proof. unfold c_slot. rewrite N.land_ones. apply N.mod_lt. apply N.pow_nonzero. discriminate. Qed.
+
+Lemma c_val_lt c : cvalid c -> c_val c < 64.
+Proof.
+  unfold cvalid, c_val. intros H. rewrite N.shiftr_div_pow2.
+  apply N.div_lt_upper_bound; [discriminate|]. change (2 ^ 26 * 64) with 4294967296. exact H.
+Qed.
+
+(* ---------- L0: per-slot max ---------- *)
+Lemma slot_max_nil lgk s : slot_max lgk [] s = 0.
+Proof. reflexivity. Qed.
+
+Lemma slot_max_cons lgk c C s :
+  slot_max lgk (c :: C) s = if c_slot lgk c =? s then N.max (c_val c) (slot_max lgk C s) else slot_max lgk C s.
+Proof. unfold slot_max. simpl. destruct (c_slot lgk c =? s); reflexivity. Qed.
+
+(* the maximum is characterised by: an upper bound of the values in the slot, attained unless it is 0 *)
+Lemma slot_max_ub lgk C s c : In c C -> c_slot lgk c = s -> c_val c <= slot_max lgk C s.
+Proof.
+  induction C as [|x t IH]; intros Hin Hs; [contradiction|].
+  rewrite slot_max_cons. destruct Hin as [->|Hin].
+  - rewrite Hs, N.eqb_refl. lia.
+  - specialize (IH Hin Hs). destruct (c_slot lgk x =? s); lia.
+Qed.
+
+Lemma slot_max_attained lgk C s :
+  slot_max lgk C s = 0 \/ exists c, In c C /\ c_slot lgk c = s /\ c_val c = slot_max lgk C s.
+Proof.
+  induction C as [|x t IH]; [now left|].
+  rewrite slot_max_cons. destruct (N.eqb_spec (c_slot lgk x) s) as [Hs|Hs].
+  - destruct (N.max_spec (c_val x) (slot_max lgk t s)) as [[Hlt ->]|[Hle ->]].
+    + destruct IH as [H0|(c & Hc & Hcs & Hcv)]; [left; exact H0|].
+      right. exists c. simpl. auto.
+    + right. exists x. simpl. auto.
+  - destruct IH as [H0|(c & Hc & Hcs & Hcv)]; [now left|]. right. exists c. simpl. auto.
+Qed.
+
+Definition same_set (A B : list N) : Prop := forall c, In c A <-> In c B.
+
+(* the per-slot max depends only on the SET of coupons: order and duplicates are irrelevant *)
+Lemma slot_max_same_set lgk A B s : same_set A B -> slot_max lgk A s = slot_max lgk B s.
+Proof.
+  intros H.
+  assert (Hle : forall A B, same_set A B -> slot_max lgk A s <= slot_max lgk B s).
+  { clear. intros A B H. destruct (slot_max_attained lgk A s) as [H0|(c & Hc & Hcs & Hcv)]; [lia|].
+    rewrite <- Hcv. apply slot_max_ub; auto. now apply H. }
+  apply N.le_antisymm; apply Hle; auto. intros c. symmetry. apply H.
+Qed.
+
+Lemma spec_regs_same_set lgk A B : same_set A B -> spec_regs lgk A = spec_regs lgk B.
+Proof. intros H. unfold spec_regs. apply map_ext. intros s. now apply slot_max_same_set. Qed.
+
+Lemma spec_regs_length lgk C : lenN (spec_regs lgk C) = 2 ^ lgk.
+Proof. unfold spec_regs, lenN. rewrite map_length. apply seqN_length. Qed.
+
+Lemma getN_spec_regs lgk C s : s < 2 ^ lgk -> getN (spec_regs lgk C) s = slot_max lgk C s.
+Proof. intros. unfold spec_regs. now apply getN_map_seqN. Qed.
+
+(* ---------- folding coupons with "max into the slot" computes the L0 registers ---------- *)
+Lemma reg_max_upd_length lgk regs c : lenN (reg_max_upd lgk regs c) = lenN regs.
+Proof. unfold reg_max_upd. destruct (_ <? _); auto. apply lenN_setN. Qed.
+
+Lemma getN_reg_max_upd lgk regs c s : lenN regs = 2 ^ lgk ->
+  getN (reg_max_upd lgk regs c) s = if c_slot lgk c =? s then N.max (getN regs s) (c_val c) else getN regs s.
+Proof.
+  intros Hl. unfold reg_max_upd. pose proof (c_slot_lt lgk c) as Hs.
+  destruct (N.ltb_spec (getN regs (c_slot lgk c)) (c_val c)) as [Hlt|Hge].
+  - rewrite getN_setN by lia. destruct (N.eqb_spec (c_slot lgk c) s) as [<-|]; auto. lia.
+  - destruct (N.eqb_spec (c_slot lgk c) s) as [<-|]; auto. lia.
+Qed.
+
+Lemma fold_reg_max_length lgk C regs : lenN (fold_left (reg_max_upd lgk) C regs) = lenN regs.
+Proof. revert regs. induction C as [|c t IH]; intros; simpl; auto. rewrite IH. apply reg_max_upd_length. Qed.
+
+Lemma getN_fold_reg_max lgk C regs s : lenN regs = 2 ^ lgk ->
+  getN (fold_left (reg_max_upd lgk) C regs) s = N.max (getN regs s) (slot_max lgk C s).
+Proof.
+  revert regs. induction C as [|c t IH]; intros regs Hl; simpl.
+  - rewrite slot_max_nil. lia.
+  - rewrite IH by (now rewrite reg_max_upd_length). rewrite getN_reg_max_upd by auto.
+    rewrite slot_max_cons. destruct (c_slot lgk c =? s); lia.
+Qed.
+
+Theorem fold_reg_max_spec lgk C :
+  fold_left (reg_max_upd lgk) C (zerosN (2 ^ lgk)) = spec_regs lgk C.
+Proof.
+  apply list_ext_getN.
+  - pose proof (fold_reg_max_length lgk C (zerosN (2 ^ lgk))) as H1.
+    pose proof (spec_regs_length lgk C) as H2. rewrite zerosN_length in H1. unfold lenN in *. lia.
+  - intros s Hs. rewrite fold_reg_max_length, zerosN_length in Hs.
+    rewrite getN_fold_reg_max by apply zerosN_length.
+    rewrite getN_zerosN, getN_spec_regs by auto. lia.
+Qed.
+
+Lemma fold_reg_max_app lgk A B regs :
+  fold_left (reg_max_upd lgk) (A ++ B) regs = fold_left (reg_max_upd lgk) B (fold_left (reg_max_upd lgk) A regs).
+Proof. apply fold_left_app. Qed.
+
+(* one more coupon on top of the spec registers *)
+Lemma spec_regs_snoc lgk C c : reg_max_upd lgk (spec_regs lgk C) c = spec_regs lgk (C ++ [c]).
+Proof.
+  rewrite <- !fold_reg_max_spec. now rewrite fold_left_app.
+Qed.
+
+Lemma spec_regs_bound lgk C s : Forall cvalid C -> getN (spec_regs lgk C) s < 64.
+Proof.
+  intros HC. destruct (N.lt_ge_cases s (2 ^ lgk)) as [Hs|Hs].
+  - rewrite getN_spec_regs by auto.
+    destruct (slot_max_attained lgk C s) as [->|(c & Hc & _ & <-)]; [lia|].
+    apply c_val_lt. rewrite Forall_forall in HC. now apply HC.
+  - rewrite getN_overflow; [lia|]. now rewrite spec_regs_length.
+Qed.
+
+(* ---------- estimator inputs as functions of the registers ---------- *)
+Definition kxq0_of (regs : list N) : Z := fold_right (fun v acc => if v <? 32 then (inv0 v + acc)%Z else acc) 0%Z regs.
+Definition kxq1_of (regs : list N) : Z := fold_right (fun v acc => if v <? 32 then acc else (inv1 v + acc)%Z) 0%Z regs.
+Definition count_eq (x : N) (regs : list N) : N := lenN (filter (N.eqb x) regs).
+
+Lemma kxq_of_setN regs s v : s < lenN regs ->
+  kxq0_of (setN regs s v) = (kxq0_of regs - (if (getN regs s <? 32)%N then inv0 (getN regs s) else 0)
+                                        + (if (v <? 32)%N then inv0 v else 0))%Z /\
+  kxq1_of (setN regs s v) = (kxq1_of regs - (if (getN regs s <? 32)%N then 0 else inv1 (getN regs s))
+                                        + (if (v <? 32)%N then 0 else inv1 v))%Z.
+Proof.
+  unfold getN, setN, lenN. intros H. assert (Hn : (N.to_nat s < length regs)%nat) by lia. clear H.
+  revert Hn. generalize (N.to_nat s). unfold kxq0_of, kxq1_of.
+  induction regs as [|x t IH]; intros [|n] Hn; cbn [length fold_right nth upd_nth] in *; try lia.
+  - destruct (x <? 32), (v <? 32); lia.
+  - destruct (IH n ltac:(lia)) as [E0 E1]. rewrite E0, E1. destruct (x <? 32); lia.
+Qed.
+
+Lemma count_eq_setN x regs s v : s < lenN regs ->
+  Z.of_N (count_eq x (setN regs s v)) =
+  (Z.of_N (count_eq x regs) - (if (x =? getN regs s)%N then 1 else 0) + (if (x =? v)%N then 1 else 0))%Z.
+Proof.
+  unfold count_eq, getN, setN, lenN. intros H. assert (Hn : (N.to_nat s < length regs)%nat) by lia. clear H.
+  revert Hn. generalize (N.to_nat s).
+  induction regs as [|y t IH]; intros [|n] Hn; cbn [length filter nth upd_nth] in *; try lia.
+  - destruct (x =? y), (x =? v); cbn [length]; lia.
+  - specialize (IH n ltac:(lia)). destruct (x =? y); cbn [length]; lia.
+Qed.
+
+Lemma kxq0_of_zeros n : kxq0_of (zerosN n) = (Z.of_N n * 2147483648)%Z.
+Proof.
+  unfold zerosN. rewrite <- (N2Nat.id n) at 2. generalize (N.to_nat n). intros m.
+  unfold kxq0_of in *. induction m; cbn [repeat fold_right]; [reflexivity|]. rewrite IHm.
+  change (0 <? 32) with true. cbv iota. change (inv0 0) with 2147483648%Z. lia.
+Qed.
+
+Lemma kxq1_of_zeros n : kxq1_of (zerosN n) = 0%Z.
+Proof.
+  unfold zerosN, kxq1_of. generalize (N.to_nat n). intros m. induction m; cbn [repeat fold_right]; auto.
+Qed.
+
+Lemma count_eq_zeros n : count_eq 0 (zerosN n) = n.
+Proof.
+  unfold count_eq, zerosN, lenN. rewrite <- (N2Nat.id n) at 2. generalize (N.to_nat n). intros m.
+  induction m; cbn [repeat filter length N.eqb]; [reflexivity|]. cbn [length]. lia.
+Qed.
+
+(* estimator inputs of an array whose registers are [regs]: what the composite estimator, the bounds and
+   the HIP increments read.  For HLL_6/HLL_8 cur_min stays 0 and num_at_cur_min counts the zero registers. *)
+Definition est_ok (h : hllarr) (regs : list N) : Prop :=
+  h_kxq0 h = kxq0_of regs /\ h_kxq1 h = kxq1_of regs.
+
+Ltac hsimp := cbn [h_lgk h_ty h_full h_ooo h_rebuild h_bytes h_curmin h_numat h_kxq0 h_kxq1 h_aux
+                    h_with_data h_set_bytes h_set_numat h_set_aux h_set_flags kxq_upd] in *.
+
+Lemma kxq_upd_est h regs s nv :
+  est_ok h regs -> s < lenN regs ->
+  est_ok (kxq_upd h (getN regs s) nv) (setN regs s nv).
+Proof.
+  intros [E0 E1] Hs. destruct (kxq_of_setN regs s nv Hs) as [F0 F1].
+  unfold est_ok. hsimp. rewrite F0, F1, <- E0, <- E1. split; reflexivity.
+Qed.
+
+(* ---------- Hll8 ---------- *)
+(* invariant of an HLL_6 / HLL_8 array whose logical registers are [regs] *)
+Definition inv68 (h : hllarr) (regs : list N) : Prop :=
+  lenN regs = 2 ^ h_lgk h /\ est_ok h regs /\ h_curmin h = 0 /\ h_numat h = count_eq 0 regs /\ h_aux h = None.
+
+Definition same_cfg (h h' : hllarr) : Prop :=
+  h_lgk h' = h_lgk h /\ h_ty h' = h_ty h /\ h_full h' = h_full h /\ h_ooo h' = h_ooo h /\ h_rebuild h' = h_rebuild h.
+
+Lemma same_cfg_refl h : same_cfg h h.
+Proof. repeat split. Qed.
+
+Lemma same_cfg_trans a b c : same_cfg a b -> same_cfg b c -> same_cfg a c.
+Proof. unfold same_cfg. intuition congruence. Qed.
+
+Lemma numat_zero_step regs s nv na : s < lenN regs -> getN regs s < nv -> na = count_eq 0 regs ->
+  (if getN regs s =? 0 then N.pred na else na) = count_eq 0 (setN regs s nv).
+Proof.
+  intros Hs Hlt ->. pose proof (count_eq_setN 0 regs s nv Hs) as Hc.
+  destruct (N.eqb_spec (getN regs s) 0) as [E|E].
+  - rewrite E in Hc. change (0 =? 0) with true in Hc. destruct (N.eqb_spec 0 nv); lia.
+  - destruct (N.eqb_spec 0 (getN regs s)); [lia|]. destruct (N.eqb_spec 0 nv); lia.
+Qed.
+
+Lemma hll8_update_step h c :
+  inv68 h (h_bytes h) ->
+  h_bytes (hll8_update h c) = reg_max_upd (h_lgk h) (h_bytes h) c /\
+  inv68 (hll8_update h c) (h_bytes (hll8_update h c)) /\ same_cfg h (hll8_update h c).
+Proof.
+  intros (Hl & He & Hcm & Hna & Hax).
+  unfold hll8_update, reg_max_upd.
+  pose proof (c_slot_lt (h_lgk h) c) as Hs.
+  set (s := c_slot (h_lgk h) c) in *. set (nv := c_val c).
+  destruct (N.ltb_spec (getN (h_bytes h) s) nv) as [Hlt|Hge];
+    [|split; [reflexivity|split; [repeat split; auto; apply He|apply same_cfg_refl]]].
+  assert (Hs' : s < lenN (h_bytes h)) by lia.
+  pose proof (kxq_upd_est h (h_bytes h) s nv He Hs') as [E0 E1].
+  unfold inv68, same_cfg, est_ok in *. hsimp.
+  split; [reflexivity|]. split; [|repeat split].
+  split; [now rewrite lenN_setN|]. split; [split; assumption|]. split; [exact Hcm|]. split; [|exact Hax].
+  now apply numat_zero_step.
+Qed.
+
+(* ---------- Hll6: packed 6-bit values, two-byte read-modify-write ---------- *)
+Ltac dlia := zify; Z.to_euclidean_division_equations; lia.
+
+Definition bytes_ok (b : list N) : Prop := Forall (fun x => x < 256) b.
+
+Lemma getN_bytes_ok b i : bytes_ok b -> getN b i < 256.
+Proof.
+  intros H. unfold getN. destruct (Nat.lt_ge_cases (N.to_nat i) (length b)) as [Hi|Hi].
+  - unfold bytes_ok in H. rewrite Forall_forall in H. apply H. now apply nth_In.
+  - rewrite nth_overflow by lia. lia.
+Qed.
+
+Lemma bytes_ok_setN b i v : bytes_ok b -> v < 256 -> bytes_ok (setN b i v).
+Proof.
+  unfold bytes_ok, setN. intros H Hv. revert H. generalize (N.to_nat i).
+  induction b as [|x t IH]; intros n H; destruct n; simpl; auto; inversion H; subst; constructor; auto.
+Qed.
+
+Lemma bytes_ok_zeros n : bytes_ok (zerosN n).
+Proof. unfold bytes_ok, zerosN. apply Forall_forall. intros x Hx. apply repeat_spec in Hx. subst. lia. Qed.
+
+Lemma small_testbit_high x n t : x < 2 ^ n -> n <= t -> N.testbit x t = false.
+Proof. intros Hx Ht. rewrite <- (N.mod_small x (2 ^ n)) by exact Hx. now apply N.mod_pow2_bits_high. Qed.
+
+Lemma lt_pow2_of_bits x n : (forall t, n <= t -> N.testbit x t = false) -> x < 2 ^ n.
+Proof.
+  intros H. assert (E : x = x mod 2 ^ n).
+  { apply N.bits_inj. intros t. destruct (N.lt_ge_cases t n) as [Ht|Ht].
+    - now rewrite N.mod_pow2_bits_low.
+    - rewrite N.mod_pow2_bits_high by exact Ht. now apply H. }
+  rewrite E. apply N.mod_lt. apply N.pow_nonzero. discriminate.
+Qed.
+
+Lemma ones_testbit n t : N.testbit (N.ones n) t = (t <? n).
+Proof.
+  destruct (N.ltb_spec t n).
+  - now apply N.ones_spec_low.
+  - now apply N.ones_spec_high.
+Qed.
+
+(* the 16-bit little-endian window *)
+Lemma window_bit lo hi t : lo < 256 -> N.testbit (N.lor (N.shiftl hi 8) lo) t =
+  if t <? 8 then N.testbit lo t else N.testbit hi (t - 8).
+Proof.
+  intros Hlo. rewrite N.lor_spec. destruct (N.ltb_spec t 8) as [H|H].
+  - now rewrite N.shiftl_spec_low.
+  - rewrite N.shiftl_spec_high' by exact H.
+    rewrite (small_testbit_high lo 8 t) by (auto; change (2 ^ 8) with 256; lia). apply orb_false_r.
+Qed.
+
+(* inserting a 6-bit field at bit [sh] *)
+Lemma ins_bit cur v sh t :
+  N.testbit (N.lor (N.ldiff cur (N.shiftl 63 sh)) (N.shiftl (N.land v 63) sh)) t =
+  if (sh <=? t) && (t <? sh + 6) then N.testbit v (t - sh) else N.testbit cur t.
+Proof.
+  rewrite N.lor_spec, N.ldiff_spec. change 63 with (N.ones 6).
+  destruct (N.leb_spec sh t) as [H|H].
+  - rewrite !N.shiftl_spec_high' by exact H. rewrite N.land_spec, !ones_testbit.
+    destruct (N.ltb_spec t (sh + 6)) as [H2|H2].
+    + replace (t - sh <? 6) with true by (symmetry; apply N.ltb_lt; lia).
+      cbn [andb negb]. now rewrite andb_false_r, andb_true_r.
+    + replace (t - sh <? 6) with false by (symmetry; apply N.ltb_ge; lia).
+      cbn [andb negb]. now rewrite andb_true_r, andb_false_r, orb_false_r.
+  - rewrite !N.shiftl_spec_low by exact H. cbn [andb negb]. now rewrite andb_true_r, orb_false_r.
+Qed.
+
+Definition abit (b : list N) (n : N) : bool := N.testbit (getN b (n / 8)) (n mod 8).
+
+Lemma window_abit b bi t : bytes_ok b -> t < 16 ->
+  N.testbit (N.lor (N.shiftl (getN b (bi + 1)) 8) (getN b bi)) t = abit b (8 * bi + t).
+Proof.
+  intros Hb Ht. rewrite window_bit by now apply getN_bytes_ok. unfold abit.
+  destruct (N.ltb_spec t 8) as [H|H].
+  - replace ((8 * bi + t) / 8) with bi by dlia. replace ((8 * bi + t) mod 8) with t by dlia. reflexivity.
+  - replace ((8 * bi + t) / 8) with (bi + 1) by dlia. replace ((8 * bi + t) mod 8) with (t - 8) by dlia. reflexivity.
+Qed.
+
+Lemma get6_bits b s j : bytes_ok b ->
+  N.testbit (get6 b s) j = (j <? 6) && abit b (6 * s + j).
+Proof.
+  intros Hb. unfold get6. rewrite N.land_spec. change 63 with (N.ones 6). rewrite ones_testbit.
+  destruct (N.ltb_spec j 6) as [Hj|Hj]; [|now rewrite andb_false_r].
+  rewrite andb_true_r, N.shiftr_spec'. cbn [andb].
+  rewrite N.shiftr_div_pow2. change (N.land (s * 6) 7) with (N.land (s * 6) (N.ones 3)). rewrite N.land_ones.
+  change (2 ^ 3) with 8.
+  rewrite window_abit by (auto; dlia). f_equal. dlia.
+Qed.
+
+Lemma get6_lt b s : get6 b s < 64.
+Proof.
+  unfold get6. change 63 with (N.ones 6). rewrite N.land_ones. apply N.mod_lt. discriminate.
+Qed.
+
+Lemma tb_255 t : N.testbit 255 t = (t <? 8).
+Proof. change 255 with (N.ones 8). apply ones_testbit. Qed.
+
+Lemma tb_ff00 t : N.testbit 65280 t = (8 <=? t) && (t <? 16).
+Proof.
+  change 65280 with (N.shiftl (N.ones 8) 8). destruct (N.leb_spec 8 t) as [H|H].
+  - rewrite N.shiftl_spec_high' by exact H. rewrite ones_testbit. cbn [andb].
+    destruct (N.ltb_spec (t - 8) 8), (N.ltb_spec t 16); auto; lia.
+  - now rewrite N.shiftl_spec_low.
+Qed.
+
+Lemma put6_length b s v : lenN (put6 b s v) = lenN b.
+Proof. unfold put6. now rewrite !lenN_setN. Qed.
+
+Lemma put6_bytes_ok b s v : bytes_ok b -> bytes_ok (put6 b s v).
+Proof.
+  intros Hb. unfold put6. apply bytes_ok_setN; [apply bytes_ok_setN; auto|].
+  - change 255 with (N.ones 8). rewrite N.land_ones. apply N.mod_lt. discriminate.
+  - change 256 with (2 ^ 8). apply lt_pow2_of_bits. intros t Ht.
+    rewrite N.shiftr_spec', N.land_spec, tb_ff00.
+    replace (t + 8 <? 16) with false by (symmetry; apply N.ltb_ge; lia). now rewrite andb_false_r, andb_false_r.
+Qed.
+
+Lemma put6_bits b s v n : bytes_ok b -> (s * 6) / 8 + 1 < lenN b ->
+  abit (put6 b s v) n = if (6 * s <=? n) && (n <? 6 * s + 6) then N.testbit v (n - 6 * s) else abit b n.
+Proof.
+  intros Hb Hlen. unfold put6, abit.
+  rewrite N.shiftr_div_pow2. change (N.land (s * 6) 7) with (N.land (s * 6) (N.ones 3)). rewrite N.land_ones.
+  change (2 ^ 3) with 8.
+  set (bi := s * 6 / 8) in *. set (sh := (s * 6) mod 8).
+  assert (E : s * 6 = 8 * bi + sh) by (subst bi sh; dlia).
+  assert (Hsh : sh < 8) by (subst sh; dlia).
+  set (cur := N.lor (N.shiftl (getN b (bi + 1)) 8) (getN b bi)).
+  set (ins := N.lor (N.ldiff cur (N.shiftl 63 sh)) (N.shiftl (N.land v 63) sh)).
+  rewrite getN_setN by (rewrite lenN_setN; lia).
+  destruct (N.eqb_spec (bi + 1) (n / 8)) as [E1|E1].
+  - (* high byte of the window *)
+    rewrite N.shiftr_spec', N.land_spec, tb_ff00.
+    replace (8 <=? n mod 8 + 8) with true by (symmetry; apply N.leb_le; dlia).
+    replace (n mod 8 + 8 <? 16) with true by (symmetry; apply N.ltb_lt; dlia).
+    cbn [andb]. rewrite andb_true_r. subst ins. rewrite ins_bit.
+    replace ((sh <=? n mod 8 + 8) && (n mod 8 + 8 <? sh + 6)) with ((6 * s <=? n) && (n <? 6 * s + 6)).
+    2:{ destruct (N.leb_spec (6 * s) n), (N.ltb_spec n (6 * s + 6)), (N.leb_spec sh (n mod 8 + 8)),
+          (N.ltb_spec (n mod 8 + 8) (sh + 6)); cbn [andb]; auto; dlia. }
+    destruct ((6 * s <=? n) && (n <? 6 * s + 6)) eqn:R.
+    + f_equal. apply andb_true_iff in R. destruct R as [R1 R2]. apply N.leb_le in R1. apply N.ltb_lt in R2. dlia.
+    + subst cur. rewrite window_abit by (auto; dlia). unfold abit. f_equal; [f_equal|]; dlia.
+  - rewrite getN_setN by lia. destruct (N.eqb_spec bi (n / 8)) as [E2|E2].
+    + (* low byte of the window *)
+      rewrite N.land_spec, tb_255. replace (n mod 8 <? 8) with true by (symmetry; apply N.ltb_lt; dlia).
+      rewrite andb_true_r. subst ins. rewrite ins_bit.
+      replace ((sh <=? n mod 8) && (n mod 8 <? sh + 6)) with ((6 * s <=? n) && (n <? 6 * s + 6)).
+      2:{ destruct (N.leb_spec (6 * s) n), (N.ltb_spec n (6 * s + 6)), (N.leb_spec sh (n mod 8)),
+            (N.ltb_spec (n mod 8) (sh + 6)); cbn [andb]; auto; dlia. }
+      destruct ((6 * s <=? n) && (n <? 6 * s + 6)) eqn:R.
+      * f_equal. apply andb_true_iff in R. destruct R as [R1 R2]. apply N.leb_le in R1. apply N.ltb_lt in R2. dlia.
+      * subst cur. rewrite window_abit by (auto; dlia). unfold abit. f_equal; [f_equal|]; dlia.
+    + (* outside the window: not in the field *)
+      replace ((6 * s <=? n) && (n <? 6 * s + 6)) with false; [reflexivity|].
+      symmetry. apply andb_false_iff.
+      destruct (N.leb_spec (6 * s) n); [|now left]. right. apply N.ltb_ge. dlia.
+Qed.
+
+Lemma get6_put6 b s s' v : bytes_ok b -> (s * 6) / 8 + 1 < lenN b -> v < 64 ->
+  get6 (put6 b s v) s' = if s =? s' then v else get6 b s'.
+Proof.
+  intros Hb Hlen Hv. apply N.bits_inj. intros j.
+  rewrite get6_bits by now apply put6_bytes_ok. rewrite put6_bits by auto.
+  destruct (N.ltb_spec j 6) as [Hj|Hj]; cbn [andb].
+  - destruct (N.eqb_spec s s') as [<-|Hne].
+    + replace ((6 * s <=? 6 * s + j) && (6 * s + j <? 6 * s + 6)) with true.
+      2:{ symmetry. apply andb_true_iff. split; [apply N.leb_le|apply N.ltb_lt]; lia. }
+      f_equal. lia.
+    + replace ((6 * s <=? 6 * s' + j) && (6 * s' + j <? 6 * s + 6)) with false.
+      2:{ symmetry. apply andb_false_iff.
+          destruct (N.leb_spec (6 * s) (6 * s' + j)); [|now left]. right. apply N.ltb_ge. lia. }
+      rewrite get6_bits by auto. replace (j <? 6) with true by (symmetry; apply N.ltb_lt; lia). reflexivity.
+  - destruct (N.eqb_spec s s') as [<-|Hne].
+    + symmetry. apply (small_testbit_high v 6); auto.
+    + symmetry. apply (small_testbit_high (get6 b s') 6); auto. apply get6_lt.
+Qed.
+
+(* the logical registers of a packed 6-bit array *)
+Definition abs6 (lgk : N) (b : list N) : list N := map (get6 b) (seqN (2 ^ lgk)).
+
+Lemma abs6_length lgk b : lenN (abs6 lgk b) = 2 ^ lgk.
+Proof. unfold abs6, lenN. rewrite map_length. apply seqN_length. Qed.
+
+Lemma getN_abs6 lgk b s : s < 2 ^ lgk -> getN (abs6 lgk b) s = get6 b s.
+Proof. intros. unfold abs6. now apply getN_map_seqN. Qed.
+
+Definition len6_ok (lgk : N) (b : list N) : Prop := 2 <= lgk /\ lenN b = arr_bytes T6 lgk.
+
+Lemma len6_window lgk b s : len6_ok lgk b -> s < 2 ^ lgk -> (s * 6) / 8 + 1 < lenN b.
+Proof.
+  intros [Hk Hl] Hs. rewrite Hl. unfold arr_bytes. rewrite N.shiftr_div_pow2. change (2 ^ 2) with 4.
+  replace lgk with (2 + (lgk - 2)) in * by lia. rewrite N.pow_add_r in *. change (2 ^ 2) with 4 in *.
+  set (q := 2 ^ (lgk - 2)) in *. dlia.
+Qed.
+
+Lemma abs6_put6 lgk b s v : bytes_ok b -> len6_ok lgk b -> s < 2 ^ lgk -> v < 64 ->
+  abs6 lgk (put6 b s v) = setN (abs6 lgk b) s v.
+Proof.
+  intros Hb Hl Hs Hv. apply list_ext_getN.
+  - pose proof (abs6_length lgk (put6 b s v)) as H1. pose proof (abs6_length lgk b) as H2.
+    rewrite setN_length. unfold lenN in *. lia.
+  - intros i Hi. rewrite abs6_length in Hi. rewrite getN_abs6 by auto.
+    rewrite getN_setN by (rewrite abs6_length; auto). rewrite getN_abs6 by auto.
+    apply get6_put6; auto. eapply len6_window; eauto.
+Qed.
+
+Definition inv6 (h : hllarr) : Prop :=
+  bytes_ok (h_bytes h) /\ len6_ok (h_lgk h) (h_bytes h) /\ inv68 h (abs6 (h_lgk h) (h_bytes h)).
+
+Lemma hll6_update_step h c : cvalid c -> inv6 h ->
+  abs6 (h_lgk h) (h_bytes (hll6_update h c)) = reg_max_upd (h_lgk h) (abs6 (h_lgk h) (h_bytes h)) c /\
+  inv6 (hll6_update h c) /\ same_cfg h (hll6_update h c).
+Proof.
+  intros Hc (Hb & Hlen & Hl & He & Hcm & Hna & Hax).
+  unfold hll6_update, reg_max_upd.
+  pose proof (c_slot_lt (h_lgk h) c) as Hs. pose proof (c_val_lt c Hc) as Hv.
+  set (s := c_slot (h_lgk h) c) in *. set (nv := c_val c) in *.
+  rewrite getN_abs6 by auto.
+  destruct (N.ltb_spec (get6 (h_bytes h) s) nv) as [Hlt|Hge].
+  2:{ split; [reflexivity|]. split; [|apply same_cfg_refl].
+      split; [exact Hb|]. split; [exact Hlen|]. unfold inv68. tauto. }
+  set (regs := abs6 (h_lgk h) (h_bytes h)) in *.
+  assert (Hs' : s < lenN regs) by lia.
+  assert (Hg : getN regs s = get6 (h_bytes h) s) by (subst regs; now apply getN_abs6).
+  pose proof (kxq_upd_est h regs s nv He Hs') as [E0 E1].
+  pose proof (abs6_put6 (h_lgk h) (h_bytes h) s nv Hb Hlen Hs Hv) as Hput. fold regs in Hput.
+  unfold inv6, inv68, same_cfg, est_ok in *. hsimp. rewrite Hg in *.
+  split; [exact Hput|]. split; [|repeat split].
+  split; [now apply put6_bytes_ok|]. split.
+  { destruct Hlen as [A B]. split; [exact A|]. now rewrite put6_length. }
+  rewrite Hput. split; [now rewrite lenN_setN|]. split; [split; assumption|]. split; [exact Hcm|]. split; [|exact Hax].
+  rewrite <- Hg. apply numat_zero_step; auto. now rewrite Hg.
+Qed.
